@@ -1,6 +1,10 @@
 //! C07 (stub)
 use super::prelude::*;
 
+pub fn special_inputs(_c: &mut Ctx, _limbs: usize) -> Vec<(BigUint, BigUint, BigUint)> {
+    Vec::new()
+}
+
 pub fn cases() -> Vec<Case> {
     Vec::new()
 }
